@@ -221,6 +221,23 @@ pub fn run(run: &mut Run) {
             run.direct(|| json!({"chain_depth": depth, "hidden": hide}), r);
         }
     }
+    // wide forests: more than 65536 layers (ids beyond 16 bits), groups with children at the far end
+    for n in if run.thorough() { vec![65536usize, 65537, 70000, 131075] } else { vec![65537usize, 70000] } {
+        let mut levels = vec![0u16; n];
+        for k in 0..6 {
+            // ... group, child, child, group, child ... at the end of the list
+            let i = n - 1 - k;
+            levels[i] = if k % 3 == 2 { 0 } else { 1 };
+        }
+        levels[0] = 0;
+        for hide in [usize::MAX, n - 3, n - 6] {
+            let r = check_guarded(|| {
+                let (nt, _) = check_forest(&levels, &|i| i != hide, false, false)?;
+                Ok(Outcome::new(nt, (n as u64) << 24 | (hide as u64 & 0xFFFFFF)).label("wide-forest>65536").with_sample(json!({"layers": n, "hidden": hide, "tail_levels": &levels[n - 6..]})))
+            });
+            run.direct(|| json!({"wide_layers": n, "hidden": hide}), r);
+        }
+    }
     let (lanes, n) = if run.thorough() { (16, 3000) } else { (16, 150) };
     run_tapes(run, lanes, n, 900, &check_random);
 }
@@ -228,6 +245,16 @@ pub fn run(run: &mut Run) {
 pub fn replay(case: &serde_json::Value) -> CheckResult {
     if let Some(t) = tape_from_case(case) {
         return check_guarded(|| check_random(&t));
+    }
+    if let Some(n) = case.get("wide_layers").and_then(|d| d.as_u64()) {
+        let n = n as usize;
+        let hide = case.get("hidden").and_then(|d| d.as_u64()).unwrap_or(u64::MAX) as usize;
+        let mut levels = vec![0u16; n];
+        for k in 0..6 {
+            let i = n - 1 - k;
+            levels[i] = if k % 3 == 2 { 0 } else { 1 };
+        }
+        return check_guarded(|| check_forest(&levels, &|i| i != hide, false, false).map(|_| Outcome::new(true, 0)));
     }
     if let Some(d) = case.get("chain_depth").and_then(|d| d.as_u64()) {
         let hide = case.get("hidden").and_then(|d| d.as_u64()).unwrap_or(u64::MAX) as usize;
